@@ -54,6 +54,23 @@ func main() {
 		if rnd.Pct(40) && prop != "C09" {
 			setHostPct = 0
 		}
+		if si%12 == 5 {
+			// fan-out stream: 40-75 children under one node (crosses the 50-children search switch)
+			nch := rnd.Range(40, 75)
+			alpha := "0123456789ABCDEFGHIJKLMNOPQRSTUVWXYZabcdefghijklmnopqrstuvwxyz-_.~!$&'()+,;=:@"
+			pre := hx.Pick(rnd, []string{"/", "/p/", "/{x}/", "/p"})
+			for i := 0; i < nch && i < len(alpha); i++ {
+				p := pre + string(alpha[(i*7+si)%len(alpha)]) + hx.Pick(rnd, []string{"", "/a", "b", "/{y}"})
+				if _, err := f.Handle(methods[0], p, rt.Noop); err == nil {
+					pats = append(pats, p)
+				}
+			}
+			if _, err := f.Handle(methods[0], pre+"{z}", rt.Noop); err == nil {
+				pats = append(pats, pre+"{z}")
+			}
+			st.Count("set:fanout")
+			npat = 0
+		}
 		for i := 0; i < npat; i++ {
 			p := rt.Pattern(rnd, setHostPct)
 			m := hx.Pick(rnd, methods)
@@ -125,8 +142,8 @@ func main() {
 			}
 			inSpec := !rt.HasEmptySegment(path) && strings.HasPrefix(path, "/")
 			shost := fox.VerifStripHostPort(host)
-			term := fmt.Sprintf("(%s, {| q_method := %s; q_host := %s; q_path := %s; q_lookup := %s; q_reverse := %s; q_spec := %s |})",
-				def, hx.Bytes(method), hx.Bytes(shost), hx.Bytes(path), lo.Term(), rev, hx.Bool(inSpec))
+			term := fmt.Sprintf("(%s, {| q_method := %s; q_rawhost := %s; q_host := %s; q_path := %s; q_lookup := %s; q_reverse := %s; q_spec := %s |})",
+				def, hx.Bytes(method), hx.Bytes(host), hx.Bytes(shost), hx.Bytes(path), lo.Term(), rev, hx.Bool(inSpec))
 			human := fmt.Sprintf("routes=%v %s host=%q path=%q => lookup=%+v reverse=(%v,%v)", dumpRoutes(f), method, host, path, lo, rr != nil, rtsr)
 			cs.AddWithDef(def, tree, term, human)
 			st.Count("kind:" + kind)
